@@ -15,6 +15,9 @@ and of branch fix-c05b:
   * chrono::day / month accept 255 (`<=` instead of `<`),
   * array<T, 0>::front() / back() check `Size != 0`, array<T, 0>::operator[] checks `false` (both configurations),
   * basic_inplace_string::insert(index, ...) (7 overloads) and erase(index, count) check `index <= size()`.
+and of branch fix-c17x:
+  * bitset::to_ulong / to_ullong exist for every width; `to_unsigned_type` checks `not test(i)` for every position at or
+    beyond the digits of the result type (`BS.toUnsigned`).
 -/
 import Tetl.C05.Basic
 namespace Tetl.C05
@@ -175,6 +178,17 @@ def moveInsert (st : Stor) (p : Int) (xs : List Int) : M Out := do
   rotateAt p.toNat b
   pure [p]
 
+/-- the public member `move_insert(position, first, last)` called directly with a pointer range of `xs.length`
+    elements (`ordered = false`: last < first) -/
+def moveInsertRng (st : Stor) (p : Int) (xs : List Int) (ordered : Bool) : M Out := do
+  itInRange p
+  guard kPair (fun _ => ordered)
+  guard kMoveIns (fun s => s.size + xs.length ≤ s.cap)
+  let b ← getSize
+  emplaceEach st xs
+  rotateAt p.toNat b
+  pure [p]
+
 /-- `insert(position, value_type&& x)` -/
 def insertMv (st : Stor) (p : Int) (v : Int) : M Out := do
   guard kInsMv (fun s => s.size != s.cap)
@@ -204,6 +218,21 @@ def destroyGuard (st : Stor) (f l : Nat) : M Unit :=
     guard kNtDestroyF (fun s => f ≤ s.size)
     guard kNtDestroyL (fun s => l ≤ s.size)
   | _ => pure ()
+
+/-- the protected member `unsafe_set_size(newSize)` of the storage base called directly: the check, then `_size = newSize`
+    (no element is constructed or destroyed; a size beyond the constructed elements is reported as damage) -/
+def unsafeSetSize (st : Stor) (n : Nat) : M Out := do
+  setSizeGuard st n
+  shrinkTo n
+  pure []
+
+/-- the protected member `unsafe_destroy(first, last)` of the non-trivial storage called directly with
+    `first = data() + f`, `last = data() + l`: the two checks, then the destructor loop `for (; first != last; ++first)`
+    (which runs off the storage when `last < first`) -/
+def unsafeDestroy (f l : Int) : M Out := do
+  guard kNtDestroyF (fun s => 0 ≤ f ∧ f ≤ s.size)
+  guard kNtDestroyL (fun s => 0 ≤ l ∧ l ≤ s.size)
+  if f ≤ l then pure [] else (fun _ s => .oob s)
 
 /-- `erase(first, last)` -/
 def eraseRng (st : Stor) (f l : Int) : M Out := do
@@ -330,6 +359,11 @@ def popBack : M Out := do
   let n ← getSize
   guard kSet (fun s => n - 1 ≤ s.cap)
   shrinkTo (n - 1)
+  pure []
+/-- the private member `unsafe_set_size(newSize)` called directly -/
+def unsafeSetSize (n : Nat) : M Out := do
+  guard kSet (fun s => n ≤ s.cap)
+  shrinkTo n
   pure []
 end IV
 
@@ -458,6 +492,12 @@ def kEraseIdx := K fST (c ++ "erase") "index <= size()"
 def setSizeGuard (newSize : Nat) : M Unit := do
   guard kSet (fun s => newSize ≤ s.cap)
   guard (kAt 0) (fun _ => newSize < newSize + 1)
+
+/-- the private member `unsafe_set_size(newSize)` called directly (the terminator is written at `newSize`) -/
+def unsafeSetSize (n : Nat) : M Out := do
+  setSizeGuard n
+  shrinkTo n
+  pure []
 
 /-- the contents become `l` (the size check is `setSizeGuard`) -/
 def ctorPtr (xs : List Int) (len : Nat) : M Out := do
@@ -617,6 +657,9 @@ def kReset := K fBS "bitset::reset" "pos < size()"
 def kFlip := K fBS "bitset::flip" "pos < size()"
 def kAt (k : Nat) := K fBS "bitset::operator[]" "pos < size()" k
 def kTest := K fBS "bitset::test" "pos < size()"
+def kToU := K fBS "bitset::to_unsigned_type" "not test(i)"
+/-- the check of `etl::set_bit(word, pos)` (= `SC.kBit "set_bit"`), reached from `to_unsigned_type` -/
+def kSetBit := K "_bit/set_bit.hpp" "set_bit" "pos < static_cast<UInt>(etl::numeric_limits<UInt>::digits)"
 
 def inSize (pos : Nat) : St → Bool := fun s => pos < s.size
 
@@ -646,6 +689,41 @@ def ctor (pos n bits : Nat) : M Out := do
   guard kCtor (fun s => pos ≤ s.size)
   let sz ← getSize
   VW.sub pos (min (min n (sz - pos)) bits)
+
+/-- `bitset::test(i)` as a callee: its check, `basic_bitset::unchecked_test(i)` with its check, the read -/
+def testBit (i : Nat) : M Int := do
+  guard kTest (inSize i)
+  guard kBBTest (inSize i)
+  rdAt i
+
+/-- `for (auto i = idx; i < size(); ++i) { TETL_PRECONDITION(not test(i)); }` for `n` more rounds from position `i` -/
+def fitsLoop : Nat → Nat → M Unit
+  | 0, _ => pure ()
+  | n + 1, i => do
+    let b ← testBit i
+    guard kToU (fun _ => b == 0)
+    fitsLoop n (i + 1)
+
+/-- `for (UInt i{0}; i != idx; ++i) { if (test(i)) { result = set_bit(result, i); } }` for `n` more rounds from position `i`;
+    `set_bit(word, pos)` carries its own check `pos < digits` and computes `word | (UInt(1) << pos)` -/
+def sumLoop (digits : Nat) : Nat → Nat → Nat → M Nat
+  | 0, _, r => pure r
+  | n + 1, i, r => do
+    let b ← testBit i
+    if b != 0 then do
+      guard kSetBit (fun _ => i < digits)
+      sumLoop digits n (i + 1) ((r ||| 2 ^ i) % 2 ^ digits)
+    else sumLoop digits n (i + 1) r
+
+/-- `to_ulong()` / `to_ullong()` = `to_unsigned_type<UInt>()` with `digits` the width of `UInt`: the "value fits" loop over
+    the positions at or beyond `digits`, then the accumulation of the low bits.  The result is printed as its two
+    32-bit halves (low, high). -/
+def toUnsigned (digits : Nat) : M Out := do
+  let n ← getSize
+  let idx := min n digits
+  fitsLoop (n - idx) idx
+  let r ← sumLoop digits idx 0 0
+  pure [((r % 4294967296 : Nat) : Int), ((r / 4294967296 : Nat) : Int)]
 end BS
 
 /-! ## scalar operations -/
@@ -752,7 +830,9 @@ inductive Op where
   | strReplaceSub (pos count : Nat) (src : List Int) (pos2 count2 : Nat)
   | strInsert (k index : Nat) (xs : List Int) | strInsertFill (index count : Nat) (ch : Int) | strEraseIdx (index count : Nat)
   | optDeref (k : Nat) | expDeref (k : Nat) | expError (k : Nat) | varIdx (k i : Nat) | varGet (k i : Nat)
-  | bb (which pos : Nat) (v : Int) | bs (which pos : Nat) (v : Int) | bsCtor (pos n bits : Nat)
+  | bb (which pos : Nat) (v : Int) | bs (which pos : Nat) (v : Int) | bsCtor (pos n bits : Nat) | bsToU (digits : Nat)
+  | svMoveInsert (st : Stor) (p : Int) (xs : List Int) (ordered : Bool)
+  | svUnsafeSetSize (st : Stor) (n : Nat) | svUnsafeDestroy (f l : Int) | ivUnsafeSetSize (n : Nat) | strUnsafeSetSize (n : Nat)
   | bit (which w pos : Nat) | divSat (x y : Int) | dayCtor (d : Nat) | monthCtor (m : Nat) | stride (l : String) (r : Nat)
   | nullChecks (ks : List (Key × Bool)) | setCtor (n : Nat) (ordered : Bool)
   deriving Repr, Inhabited
@@ -788,7 +868,10 @@ def run : Op → M Out
   | .strInsert k i xs => STR.insert k i xs | .strInsertFill i n ch => STR.insertFill i n ch | .strEraseIdx i n => STR.eraseIdx i n
   | .optDeref k => OEV.optDeref k | .expDeref k => OEV.expDeref k | .expError k => OEV.expError k
   | .varIdx k i => OEV.varIdx k i | .varGet k i => OEV.varGet k i
-  | .bb w p v => BS.bb w p v | .bs w p v => BS.bs w p v | .bsCtor p n b => BS.ctor p n b
+  | .bb w p v => BS.bb w p v | .bs w p v => BS.bs w p v | .bsCtor p n b => BS.ctor p n b | .bsToU d => BS.toUnsigned d
+  | .svMoveInsert st p xs o => SV.moveInsertRng st p xs o
+  | .svUnsafeSetSize st n => SV.unsafeSetSize st n | .svUnsafeDestroy f l => SV.unsafeDestroy f l
+  | .ivUnsafeSetSize n => IV.unsafeSetSize n | .strUnsafeSetSize n => STR.unsafeSetSize n
   | .bit wh w p => SC.bit wh w p | .divSat x y => SC.divSat x y | .dayCtor d => SC.dayCtor d | .monthCtor m => SC.monthCtor m
   | .stride l r => SC.stride l r | .nullChecks ks => SC.nullChecks ks | .setCtor n o => SC.setCtor n o
 
